@@ -24,14 +24,14 @@ claim('C01', 'interprocedural must-check / fail-closed gate analysis on SSA (edg
 
 claim('C02', 'typestate + must-check gate analysis on SSA, finite decision table of the predicate, who-may-read inventories, constant-table order',
       'Static, all-paths: the critical-failure predicate is exactly Action==enforce && Error!=nil; every validation result appended to the outcome (and every later store to its Error) is gated by that predicate on all '
-      'paths to success; each result carries the action of its own type from the applicable level; overrides go into a fresh map behind the legality gates; every plugin situation (missing, too old, no capability, '
+      'paths to success; each result carries the action of its own type from the applicable level; overrides go into a fresh map behind the legality gates; a recorded failure is never erased (a validation result a function did not create is written only by a store of a provably non-nil error, never overwritten as a whole, and the list of results is only extended); every plugin situation (missing, too old, no capability, '
       'execution error, missing/failed verdict) is fail-closed; native identity/revocation checks are routed by capability and skip; critical extended attributes are accounted for when no plugin is named and when the '
       'plugin ran: the list the plugin must process leaves an attribute out only for being one of the two header constants, and a critical attribute whose key is not a string fails verification. The path "plugin named but not executed" is a known finding pinned by a stable test. Clause-wise structure implies the decision table and monotonicity; the table is not enumerated as values.', 'DESIGN.md 2/C02')
 
 claim('C03', 'who-may-call inventory + effect-site gate analysis + provenance by access-path labels on SSA',
       'Static, all-paths: the trust store is read at exactly one product site; that site is reachable only for listed stores whose type prefix equals the wanted type, with the name taken from the listed entry; '
       'a load error or malformed entry fails the whole load with a nil slice; the wanted type is a constant selected by the verified envelope\'s signing scheme (ca/signingAuthority; tsa only from the timestamp path); '
-      'the stores, identities, name and options handed down belong to the single selected statement; VerifyAuthenticity receives exactly the loaded certificates and an empty set or error is a failing result; '
+      'the stores, identities, name and options handed down belong to the single selected statement; VerifyAuthenticity receives exactly the loaded certificates and an empty set or error is a failing result, and that recorded failure is never overwritten later (no store of a possibly-nil error or of a whole result into a validation result the function did not create); '
       'the store implementation returns for (type, name) exactly what it just read from the directory of that type and name (no cache keyed by name alone) and the statement whose stores are used is the one selected for the artifact (the exact-set rules of C13 and the selection rules of C08, re-decided under C03 keys). '
       'Necessary structural conditions for every placement of certificates in stores; certificate identity itself is trusted to notation-core-go.', 'DESIGN.md 2/C03')
 claim('C04', 'instruction whitelist + per-iteration must-check gates + argument provenance on SSA',
